@@ -272,7 +272,7 @@ func c16GenHistory(g *Gen, producer bool) {
 	// externalised OUTPUTS: an in-memory storage and a low threshold, so data batches below / at / above
 	// it travel inline or as a pointer to an upload (which must carry the cursor)
 	ext := r.Chance(30)
-	thr := Pick(r, []int{1, 24, 64, 160})
+	thr := Pick(r, []int{1, rowsBufSize(3), rowsBufSize(8), rowsBufSize(20)}) // sizes some batch has exactly
 	xin = xin || ext // any external-location config also resolves pointer inputs
 	cfgLine := fmt.Sprintf("cfg cache=%d maxresp=%d limit=%d hdr=%d xin=%d", b2i(cache), maxresp, limit, b2i(hdrCfg), b2i(xin))
 	if ext {
@@ -313,13 +313,14 @@ func c16GenHistory(g *Gen, producer bool) {
 		prog = genProg(r, true, collide, 7)
 	}
 	if ext {
-		// resize some emits around the threshold (8 bytes per row)
+		// resize some emits around the threshold: one row below it, exactly at it, one row above
 		ts := strings.Split(prog, "/")
 		for i, t := range ts {
 			if t == "-" || !r.Chance(60) {
 				continue
 			}
-			rows := Pick(r, []int{thr/8 - 1, thr / 8, thr/8 + 1, thr / 4, 40})
+			at := rowsAtThr(thr)
+			rows := Pick(r, []int{at - 1, at, at + 1, 2 * at, 40})
 			if rows < 0 {
 				rows = 0
 			}
@@ -511,6 +512,24 @@ func c16GenHistory(g *Gen, producer bool) {
 		lines = append(lines, fmt.Sprintf("x 0 %s %s c %s", kind, Pick(r, []string{"empty", "ok"}), strings.Join(meta, " ")))
 	}
 	g.Case(lines...)
+}
+
+// rowsBufSize: the Arrow buffer size (what the externalize threshold is compared with) of a scripted
+// data batch of n rows — 8 bytes per value plus the validity bitmap the builder allocates.
+func rowsBufSize(n int) int {
+	b := int64Batch(scriptValueSchema, make([]int64, n))
+	defer b.Release()
+	return int(arrowBufferSize(b))
+}
+
+// rowsAtThr: the row count whose buffer size is exactly thr (searching just below thr/8), or thr/8.
+func rowsAtThr(thr int) int {
+	for n := thr / 8; n >= 0 && n >= thr/8-16; n-- {
+		if rowsBufSize(n) == thr {
+			return n
+		}
+	}
+	return thr / 8
 }
 
 func b2i(b bool) int {
